@@ -287,12 +287,9 @@ func c15Child(c *mon.Child) {
 				c.End(key)
 				continue
 			}
-			if lexErr == nil && L != nil && !mapped {
-				env := gram.NewEnv(g, L, sym, elided, nil, -1, true)
-				env.Budget = 150000
-				env.Run()
-				if env.Over {
-					c.Inconclusive("reference-step-budget")
+			if lexErr == nil && L != nil {
+				// cost guard (also for mapped parsers: the reference runs on Parser.Lex's mapped tokens)
+				if !affordableK(c, gp, L, []int{[]int{1, 2, participle.MaxLookahead}[gi%3]}) {
 					c.End(key)
 					continue
 				}
